@@ -1517,6 +1517,71 @@ pub fn stale() -> bool {
     STALE.load(std::sync::atomic::Ordering::Relaxed)
 }
 
+/// Pre-history (engine flag `--prehist drain|forget|clear|retain|remove|entries`): before a state's history
+/// is replayed, the fresh container is filled to capacity, every key is looked up through every lookup
+/// path (get, get_mut, get_key_value, contains_key, entry), and the container is emptied again by the
+/// chosen route. Observably it is the initial empty container again (and the model stays empty), but
+/// whatever an implementation keeps *besides* `len` and the live slots - a cached index, a hint, a
+/// high-water mark - has been set and must have been invalidated; the dead slots hold stale copies too.
+pub static PREHIST: std::sync::atomic::AtomicU8 = std::sync::atomic::AtomicU8::new(0);
+pub fn set_prehist(name: Option<&str>) {
+    let c = match name {
+        Some("drain") => 1,
+        Some("forget") => 2,
+        Some("clear") => 3,
+        Some("retain") => 4,
+        Some("remove") => 5,
+        Some("entries") => 6,
+        _ => 0,
+    };
+    PREHIST.store(c, std::sync::atomic::Ordering::Relaxed);
+}
+pub fn prehistory<K: KeyT, V: ValT, const N: usize>(m: &mut Map<K, V, N>, nk: u8) {
+    let mode = PREHIST.load(std::sync::atomic::Ordering::Relaxed);
+    if mode == 0 {
+        return;
+    }
+    let fill = (N as u8).min(nk);
+    for k in 0..fill {
+        m.insert(K::mk(k, 0), V::mk(0));
+    }
+    for round in 0..2 {
+        // ascending, then descending, so that the last lookup lands on the first and on the last slot
+        let keys: Vec<u8> = if round == 0 { (0..fill).collect() } else { (0..fill).rev().collect() };
+        for k in keys {
+            K::with_q(k, |q| {
+                let _ = m.get(q);
+                let _ = m.get_mut(q);
+                let _ = m.get_key_value(q);
+                let _ = m.contains_key(q);
+            });
+            let e = m.entry(K::mk(k, 0));
+            let _ = e.key();
+            drop(e);
+        }
+    }
+    match mode {
+        1 => drop(m.drain()),
+        2 => std::mem::forget(m.drain()),
+        3 => m.clear(),
+        4 => m.retain(|_, _| false),
+        5 => {
+            for k in 0..fill {
+                K::with_q(k, |q| {
+                    m.remove(q);
+                });
+            }
+        }
+        _ => {
+            for k in (0..fill).rev() {
+                if let Entry::Occupied(e) = m.entry(K::mk(k, 0)) {
+                    let _ = e.remove_entry();
+                }
+            }
+        }
+    }
+}
+
 /// Which constructor produces the initial (empty) container of every rebuilt state
 /// (engine flag `--ctor new|default|with_capacity`).
 pub static CTOR: std::sync::atomic::AtomicU8 = std::sync::atomic::AtomicU8::new(0);
@@ -1792,9 +1857,12 @@ impl<K: KeyT, V: ValT, const N: usize> MapSys<K, V, N> {
     /// Like `build`, but in the current ledger epoch (objects built earlier stay valid).
     pub fn build_more(&self, path: &[u32], cx: &mut Ctx) -> Built<K, V, N> {
         let mut bx = Canary::boxed(construct::<K, V, N>());
+        // what a pre-history leaves alive (the un-yielded elements of a forgotten drain) is a tolerated leak
+        let alive_before = pl::live_ids();
+        prehistory::<K, V, N>(&mut bx.c, self.nk);
+        let mut leaked: Vec<u32> = pl::live_ids().into_iter().filter(|id| !alive_before.contains(id)).collect();
         let mut model = RefMap::new(N);
         let probes = self.probes();
-        let mut leaked = Vec::new();
         let was = cx.quiet;
         cx.quiet = true;
         for i in path {
